@@ -22,8 +22,8 @@ type task struct {
 	Seg      int64    `json:"seg"`
 	Ops      []string `json:"ops"`
 	Long     string   `json:"long,omitempty"`
-	All      bool     `json:"all,omitempty"`  // crash points of every operation (long histories)
-	FromOp   int      `json:"from_op"`        // with All: only crash points whose in-flight op is in [FromOp,ToOp)
+	All      bool     `json:"all,omitempty"` // crash points of every operation (long histories)
+	FromOp   int      `json:"from_op"`       // with All: only crash points whose in-flight op is in [FromOp,ToOp)
 	ToOp     int      `json:"to_op"`
 	MaxBits  int      `json:"max_bits"`
 	Deadline int64    `json:"deadline_ms"`
@@ -45,7 +45,7 @@ type replayDoc struct {
 	Ops     []string `json:"history"`
 	Long    string   `json:"long_history,omitempty"`
 	MaxBits int      `json:"max_bits,omitempty"`
-	Point   int      `json:"crash_point,omitempty"`  // observation index k
+	Point   int      `json:"crash_point,omitempty"` // observation index k
 	PointAt string   `json:"crash_point_label,omitempty"`
 	Image   string   `json:"image,omitempty"` // deterministic description of the sector choice
 	File    string   `json:"file,omitempty"`
